@@ -114,6 +114,18 @@ def check_arith_oracle(op, operand_canon, result):
     """property oracle on the implementation alone (exact operands only). None if fine, else a
     description. `result` is the harness's field, e.g. 'V i:3' or 'E divZero -'."""
     xs = [exact_of(c) for c in operand_canon]
+    if len(operand_canon) == 1 and operand_canon[0].startswith("r:") and op in ("abs", "floor", "ceiling") and result.startswith("V r:"):
+        # an inexact operand: the IEEE operation (sign bit cleared; rounding towards -inf / +inf), bit for bit
+        import struct
+        x = f32_of(operand_canon[0])
+        if x == x and x not in (float("inf"), float("-inf")):
+            want = abs(x) if op == "abs" else float(math.floor(x)) if op == "floor" else float(math.ceil(x))
+            if op != "abs" and want == 0.0:
+                want = math.copysign(0.0, x)          # a zero result keeps the operand's sign (IEEE roundToIntegral)
+            wb = struct.unpack(">I", struct.pack(">f", want))[0]
+            if result[2:] != "r:%d" % wb:
+                return "expected the binary32 %s of the operand, bits %d, got %s" % (op, wb, result[2:])
+        return None
     if any(x is None for x in xs):
         return None
     sp = spec_arith(op, xs)
@@ -170,6 +182,8 @@ def pair_holds(op, a, b):
 
 def check_cmp_oracle(op, operand_canon, result):
     xs = [exact_of(c) for c in operand_canon]
+    if op == "eqv?" and len(operand_canon) == 2 and any(x is None for x in xs):
+        return check_eqv_mixed(operand_canon, result)
     if any(x is None for x in xs) and op in ("max", "min") and result.startswith("V "):
         # some argument is inexact: the result is inexact, and it is the extreme of the arguments after the exact INTEGERS among
         # them are converted to binary32 (ratios: not predicted)
@@ -205,4 +219,12 @@ def check_cmp_oracle(op, operand_canon, result):
     if op == "eqv?":
         want = "V #t" if xs[0] == xs[1] else "V #f"
         return None if result == want else "expected %s, got %s" % (want, result)
+    return None
+
+
+def check_eqv_mixed(operand_canon, result):
+    """eqv? on an exact and an inexact number is #f whatever their values"""
+    a, b = operand_canon
+    if (a.startswith("r:")) != (b.startswith("r:")) and result != "V #f":
+        return "the operands differ in exactness, yet eqv? answers %s" % result
     return None
